@@ -27,7 +27,7 @@ def describe(tier):
                 "entry at each position). Oracle R7: discriminators in document order, exactly once, nothing below a forbidden node; the "
                 "status of every segment-level node and free-text element per the two documented tables incl. FILLED/EMPTY suffix; "
                 "NotImplementedError iff a VISITED MUSS/prefix node is undetermined. The node's own evaluation comes from evaluating its "
-                "expression alone with the real evaluate_ahb_expression_tree. Also through validate_segment_level. Non-trivial = trees with "
+                "expression alone with the real evaluate_ahb_expression_tree. Also through validate_segment_level with a segment group and with a segment as root. Non-trivial = trees with "
                 ">= 3 nodes.",
         "bounds": b,
         "exhaustive": True,
@@ -67,6 +67,13 @@ def check_case(shape, exprs, cer, soll, entry="deep", variant=0):
     use = groups
     if entry == "segment_level":
         use = groups[:1]
+    elif entry == "segment_root":
+        from mc.ref import validation as R7
+
+        segs = [n for n in R7.nodes(groups) if n["kind"] == "segment"]
+        if not segs:
+            return []
+        use = segs[:1]
     got = H.V.run_validation(use, H.env(cer), soll, entry=entry)
     diff = H.compare(use, cer, soll, got)
     if diff is None:
@@ -99,6 +106,9 @@ def run_item(item):
             for soll in (True, False):
                 _acc(r, check_case(CHAIN_SHAPE, exprs, item["cer"], soll), 4, {"chain": list(exprs), "soll": soll})
             _acc(r, check_case(CHAIN_SHAPE, exprs, item["cer"], True, entry="segment_level"), 4, {"chain": list(exprs), "entry": "segment_level"})
+            if exprs[:2] == (H.CHAIN_MENU[0], H.CHAIN_MENU[0]):
+                for soll in (True, False):
+                    _acc(r, check_case(CHAIN_SHAPE, exprs, item["cer"], soll, entry="segment_root"), 2, {"chain": list(exprs), "entry": "segment_root"})
     elif fam in ("tree4", "tree3"):
         shape = [s for s in T.shapes(item["nmax"], item["nmin"])][item["shape"]]
         n = T.count_nodes(shape)
@@ -108,6 +118,8 @@ def run_item(item):
                 continue
             for soll in (True, False):
                 _acc(r, check_case(shape, exprs, 0, soll, variant=k % 3), n, {"shape": repr(shape), "exprs": list(exprs), "soll": soll})
+            if k % 4 == 0:
+                _acc(r, check_case(shape, exprs, 0, k % 8 == 0, entry="segment_root", variant=k % 3), n, {"shape": repr(shape), "entry": "segment_root"})
     elif fam == "rich":
         base = ["Muss [1]", "Muss", "Kann [1]", "Soll [1]", "X", "Muss [1]", "Muss [1]", "Muss", "Soll [1]", "Muss"]
         for m in H.RICH_MENU:
